@@ -80,7 +80,20 @@ Definition parse_pipe (e : bytes) : pexpr :=
     | None => {| p_initial := t; p_segs := [] |}
     end
   else match split_on x7c e with
-       | first :: rest => {| p_initial := trim first; p_segs := map (fun p => classify_segment (trim p)) rest |}
+       | first :: rest =>
+           (* a first part that is itself a call fn(args) is the first segment: called without a piped value *)
+           let f := trim first in
+           let segs := map (fun p => classify_segment (trim p)) rest in
+           match rev f with
+           | c :: _ => if beq c x29 then
+                         match filter_match f with
+                         | Some (name, args) => if is_identifier name then {| p_initial := []; p_segs := SFilter name (parse_args args) :: segs |}
+                                                else {| p_initial := f; p_segs := segs |}
+                         | None => {| p_initial := f; p_segs := segs |}
+                         end
+                       else {| p_initial := f; p_segs := segs |}
+           | [] => {| p_initial := f; p_segs := segs |}
+           end
        | [] => {| p_initial := []; p_segs := [] |}
        end.
 
